@@ -26,8 +26,8 @@ const prop = "C09"
 
 // Input is the replayable input of one case.
 type Input struct {
-	Kind   string `json:"kind"`   // string | value | bytes | aux
-	Header string `json:"header"` // transport | transports | session | rtpinfo | range | authenticate | authorization | keymgmt | mikey | kv | b64 | lower | float | utc
+	Kind   string `json:"kind"`           // string | value | bytes (MIKEY wire bytes) | loose (MIKEY value, not nec. well-formed) | aux
+	Header string `json:"header"`         // transport | transports | session | rtpinfo | range | authenticate | authorization | keymgmt | mikey | kv | b64 | lower | float | utc
 	Strs   []S    `json:"strs,omitempty"` // string cases: the header value (a list of strings); aux: arguments
 	Sep    int    `json:"sep,omitempty"`
 
@@ -455,6 +455,36 @@ func (d *driver) runMikeyValue(in *Input, name string) {
 		Impl: []string{hx(string(b1)), back.line()}})
 }
 
+// runMikeyLoose: a message that need not be well-formed (lengths beyond their wire fields, unsupported
+// type bytes): Marshal and Unmarshal of the implementation against the model, no round-trip claim.
+func (d *driver) runMikeyLoose(in *Input, name string) {
+	m := in.Mikey.Go()
+	var b1 []byte
+	out := guard(func() (string, error) {
+		var err error
+		b1, err = m.Marshal()
+		return "", err
+	})
+	if out.panic != "" {
+		// Marshal of an arbitrary struct value is outside the property (it speaks of well-formed values);
+		// still worth knowing
+		d.c.Dist("mikey.loose.marshal-panic")
+		return
+	}
+	if out.err != "" {
+		d.c.Dist("mikey.loose.marshal-error")
+		return
+	}
+	back := mikeyUnmarshal(b1)
+	if back.panic != "" {
+		d.viol("parsing any string never panics", "hdr-panic-mikey", in, back.panic)
+	}
+	d.c.Dist("mikey.loose")
+	d.c.Add(corr.Case{Name: name, Nontrivial: true,
+		Ops:  []string{"hdr mikey.m " + encMessage(m), "hdr mikey.u " + hx(string(b1))},
+		Impl: []string{hx(string(b1)), back.line()}})
+}
+
 func (d *driver) runMikeyBytes(in *Input, name string) {
 	b := []byte(in.Strs[0])
 	first := mikeyUnmarshal(b)
@@ -565,6 +595,8 @@ func (d *driver) run(in *Input, name string) {
 		d.runValue(in, name)
 	case "bytes":
 		d.runMikeyBytes(in, name)
+	case "loose":
+		d.runMikeyLoose(in, name)
 	case "aux":
 		d.runAux(in, name)
 	}
@@ -644,7 +676,9 @@ func Run(c *corr.Ctx) {
 		"boundary ports/ttl/ssrc, NPT with ms/us/ns resolution, SMPTE, UTC incl. leap days, 1..4 RTP-Info entries, Basic/Digest, MIKEY with every " +
 		"payload kind) -> Marshal twice, Unmarshal, compare, and compare with the model; strings: marshalled texts mutated (byte edits, field " +
 		"duplication/swap/conflicting or invalid fields), fields drawn from per-header pools of valid/invalid/conflicting elements, random bytes; " +
-		"each parsed 16 times by the implementation; a case is non-trivial always; distinct = distinct op lines")
+		"each parsed 16 times by the implementation; exhaustive small scopes: the tokenizer on every string over {a = ; \" space ,} up to length 5 (7 thorough), " +
+		"every ordered pair (thorough: triples) of pool elements per header, every single-byte change / prefix of one MIKEY message, base64 over a 6-letter alphabet, " +
+		"every day of 4 years, NPT millisecond sweep; a case is non-trivial always; distinct = distinct op lines")
 	d := &driver{c: c, g: gen{c.Rng}}
 	if c.Replay != nil {
 		var in Input
